@@ -149,7 +149,7 @@ type Event struct {
 }
 
 type Fault struct {
-	Kind string `json:"kind"` // fetch | versions | source | finder-error
+	Kind string `json:"kind"` // fetch | versions | versions-empty | source | finder-error
 	N    int    `json:"n"`    // fire on the n-th call of that kind (1-based)
 }
 
@@ -265,6 +265,10 @@ func (h *Harness) ModulePackageVersions(ctx context.Context, pkgAddr regaddr.Mod
 	h.log("versions", pkgAddr.String(), "")
 	if h.fire("versions") {
 		return sourcebundle.ModulePackageVersionsResponse{}, fmt.Errorf("injected registry failure listing %s", pkgAddr)
+	}
+	if h.fire("versions-empty") {
+		// the registry answers, and offers nothing
+		return sourcebundle.ModulePackageVersionsResponse{}, nil
 	}
 	rp := h.regPkg(pkgAddr)
 	if rp == nil {
